@@ -113,7 +113,11 @@ func (t *sleepTransaction) Disconnect(disconnect *pkts1.Disconnect) {
 	t.mu.Lock()
 	defer t.mu.Unlock()
 	if t.state != awaitingDisconnect {
-		t.log.Debug("Unexpected packet in %d: %v", t.state, disconnect)
+		// Not a reply to our DISCONNECT: the gateway has ended the session.
+		t.log.Debug("Received DISCONNECT, quitting")
+		t.Fail(fmt.Errorf("disconnected by the gateway"))
+		t.client.setState(util.StateDisconnected)
+		t.client.cancel()
 		return
 	}
 	t.stopTimer()
